@@ -37,7 +37,9 @@ var ctVariants = map[string][]string{
 	"ld":       {`application/ld+json; profile="https://www.w3.org/ns/activitystreams"`, "application/ld+json"},
 	"json":     {"application/json", "application/json; charset=utf-8"},
 	"jrd":      {"application/jrd+json", "application/jrd+json; charset=utf-8"},
-	"html":     {"text/html; charset=utf-8", "text/plain", "application/xml", "application/json5", "application/activity+json2", "text/json"},
+	/* foreign types, among them names that go on after a tolerated one with further token characters */
+	"html": {"text/html; charset=utf-8", "text/plain", "application/xml", "application/json5", "application/activity+json2", "text/json",
+		"application/json|text/html", "application/json*", "application/json%2Bhtml", "application/activity+json~draft", "application/ld+json'x", "application/jrd+json!", "application/json`"},
 	"bad":      {"garbage", "/json", "application/"},
 	"wild":     {"*/*", "application/*", "*/*; charset=utf-8", "application/*; charset=utf-8", "*/json"},
 }
